@@ -16,7 +16,7 @@ CONSTANTS FileSizes,     \* numbers of objects in the valid input file
           MaxLen,        \* longest history
           MaxWrites
 
-VARIABLES ph,            \* "fresh" | "in" | "out" | "closed" | "dead"
+VARIABLES ph,            \* "fresh" | "in" | "out" | "half" | "closed" | "dead"
           isOpen, good, eof,
           n, k,          \* objects in the input file / delivered so far
           w,             \* objects written so far
@@ -46,8 +46,13 @@ OpenIn == /\ ph = "fresh" /\ Do("openIn", n)
 OpenOut == /\ ph = "fresh" /\ Do("openOut", 0)
            /\ ph' = "out" /\ isOpen' = TRUE /\ threads' = 2
            /\ UNCHANGED <<good, eof, n, k, w, appOwned, libOwned>>
+(* open(existing file that is not a BLF file, in): FileStatistics::read throws out of open().  The stream is open
+   (is_open() is true), the mode is recorded, no worker exists; close() or the destructor end this state *)
+OpenGarbage == /\ ph = "fresh" /\ Do("openGarbage", 0)
+               /\ ph' = "half" /\ isOpen' = TRUE
+               /\ UNCHANGED <<good, eof, n, k, w, threads, appOwned, libOwned>>
 (* open() on an open object returns at once *)
-OpenAgain == /\ ph \in {"in", "out"} /\ Do("openAgain", 0)
+OpenAgain == /\ ph \in {"in", "out", "half"} /\ Do("openAgain", 0)
              /\ UNCHANGED <<ph, isOpen, good, eof, n, k, w, threads, appOwned, libOwned>>
 Read == /\ ph = "in" /\ Do("read", 0)
         /\ IF k < n THEN /\ k' = k + 1 /\ appOwned' = appOwned + 1 /\ good' = TRUE /\ eof' = FALSE
@@ -56,8 +61,13 @@ Read == /\ ph = "in" /\ Do("read", 0)
 Write == /\ ph = "out" /\ w < MaxWrites /\ Do("write", w + 1)
          /\ w' = w + 1 /\ libOwned' = libOwned + 1
          /\ UNCHANGED <<ph, isOpen, good, eof, n, k, threads, appOwned>>
+(* write() after the session has ended: the library takes ownership all the same (the object waits in the queue and
+   is released by the destructor) *)
+WriteClosed == /\ ph = "closed" /\ w < MaxWrites /\ Do("writeClosed", w + 1)
+               /\ w' = w + 1 /\ libOwned' = libOwned + 1
+               /\ UNCHANGED <<ph, isOpen, good, eof, n, k, threads, appOwned>>
 (* close(): workers joined; a write session has encoded and released every object *)
-Close == /\ ph \in {"in", "out", "closed"} /\ Do("close", 0)
+Close == /\ ph \in {"in", "out", "half", "closed"} /\ Do("close", 0)
          /\ ph' = "closed" /\ isOpen' = FALSE /\ threads' = 0
          /\ libOwned' = IF ph = "out" THEN 0 ELSE libOwned
          /\ UNCHANGED <<good, eof, n, k, w, appOwned>>
@@ -66,13 +76,14 @@ Destroy == /\ ph # "dead" /\ Do("destroy", 0)
            /\ ph' = "dead" /\ isOpen' = FALSE /\ threads' = 0 /\ libOwned' = 0 /\ appOwned' = 0
            /\ UNCHANGED <<good, eof, n, k, w>>
 
-Next == OpenMissing \/ OpenUnwritable \/ OpenIn \/ OpenOut \/ OpenAgain \/ Read \/ Write \/ Close \/ Destroy
+Next == OpenMissing \/ OpenUnwritable \/ OpenIn \/ OpenOut \/ OpenGarbage \/ OpenAgain \/ Read \/ Write \/ WriteClosed
+        \/ Close \/ Destroy
 Spec == Init /\ [][Next]_vars
 
 (* C13 *)
-NoThreadLeft == ph \in {"fresh", "closed", "dead"} => threads = 0
+NoThreadLeft == ph \in {"fresh", "half", "closed", "dead"} => threads = 0
 ReleasedAtEnd == ph = "dead" => libOwned = 0 /\ appOwned = 0
-OpenFlag == isOpen <=> ph \in {"in", "out"}
+OpenFlag == isOpen <=> ph \in {"in", "out", "half"}
 ReadFlags == ph = "in" => (eof <=> ~good) /\ (eof => k = n)
 DeliveredBounded == k <= n
 
@@ -82,7 +93,7 @@ Proj == [isOpen |-> isOpen,
          eof |-> IF ph = "in" THEN eof ELSE FALSE,
          k |-> k, w |-> w, dead |-> ph = "dead",
          \* workers may have ended on their own (end of file) while the session is open: compared when closed
-         threads |-> IF ph \in {"in", "out"} THEN -1 ELSE threads, leaked |-> 0]
+         threads |-> IF ph \in {"in", "out", "half"} THEN -1 ELSE threads, leaked |-> 0]
 EdgeLog == PrintT(ToJson([s |-> View, a |-> act', t |-> View', pt |-> Proj']))
 InitLog == TLCGet("level") = 1 => PrintT(ToJson([init |-> View, a |-> act, pt |-> Proj]))
 =============================================================================
